@@ -34,7 +34,7 @@ check("C06", "exploration",
       "DESIGN.md §3 C06")
 check("C07", "exploration",
       "bounded exhaustive enumeration of valid, corrupted, multi-statement and lexically invalid inputs through all 16 entry points; differential oracle",
-      "Every generated statement, every single-token deletion / duplication / replacement of a spread of them, all scripts of <=3 items with stray semicolons, comment placements and lexically invalid inputs go through 16 entry points; acceptance, canonical tree and structured error code must agree with gosqlx.Parse; all batches of length <=3 over 7 items must equal the individual calls and fail at the first failing index.",
+      "Every generated statement, every single-token deletion / duplication / replacement (one token of every lexical kind) of a spread of them, all scripts of <=3 items with stray semicolons, comment placements and lexically invalid inputs go through 16 entry points; acceptance, canonical tree and structured error code must agree with gosqlx.Parse; all batches of length <=3 over 7 items must equal the individual calls and fail at the first failing index.",
       "Trusted: canonical dump; ParseWithRecovery compared through its first error.",
       "DESIGN.md §3 C07")
 check("C08", "model_checking",
